@@ -84,12 +84,6 @@ func newScanner(snapshot *KVSnapshot, startKey []byte, endKey []byte, batchSize 
 		reverse:      reverse,
 		nextEndKey:   endKey,
 	}
-	if reverse && len(endKey) > 0 && kv.CmpKey(startKey, endKey) >= 0 {
-		// Empty range [startKey, endKey): nothing to scan. Without this, a reverse scan whose bounds coincide with
-		// a region boundary asks the region on the left of endKey for keys >= its own end key (not in that region).
-		scanner.Close()
-		return scanner, nil
-	}
 	err := scanner.Next()
 	if tikverr.IsErrNotFound(err) {
 		return scanner, nil
@@ -212,6 +206,15 @@ func (s *Scanner) getData(bo *retry.Backoffer) error {
 	// the states in request need to keep when retry request.
 	var readType string
 	for {
+		if s.reverse && len(s.nextEndKey) > 0 && kv.CmpKey(s.nextStartKey, s.nextEndKey) >= 0 {
+			// The remaining range [nextStartKey, nextEndKey) is empty (initially, or after a batch whose last key is
+			// the lower bound): nothing more to scan. Without this, when nextEndKey is a region boundary the region on
+			// its left is asked for keys >= its own end key, which are not in that region.
+			s.eof = true
+			s.cache = nil
+			s.idx = 0
+			return nil
+		}
 		if !s.reverse {
 			loc, err = s.snapshot.store.GetRegionCache().LocateKey(bo, s.nextStartKey)
 		} else {
